@@ -114,6 +114,8 @@ let uop_of (s : sexp) : uop =
   | "filter" -> UPrim (OFilter (pred_of (fn_of (a0 ()))))
   | "filter_map" -> UPrim (OFilterMap (opt_of (fn_of (a0 ()))))
   | "tap" -> UPrim OTap
+  (* higher-order stages that hand every item on unchanged: identity nodes in the model *)
+  | "flat_map_of" | "concat_map_of" | "group_flat" -> UPrim OTap
   | "on_error_map" -> let k = zarg (a0 ()) in UPrim (OOnErrorMap (fun e -> Z.add e k))
   | "take" -> UPrim (OTake (narg (a0 ())))
   | "skip" -> UPrim (OSkip (narg (a0 ())))
